@@ -79,7 +79,7 @@ func genRoundtrip(tier string, seed uint64) {
 	r := &rng{s: seed}
 	n := 25
 	if tier == "thorough" {
-		n = 800
+		n = 2500
 	}
 	for _, a := range zooAtlases() {
 		for _, t := range roundtripTypes(a) {
@@ -129,7 +129,7 @@ func genTags(tier string, seed uint64) {
 	r := &rng{s: seed}
 	n := 60
 	if tier == "thorough" {
-		n = 2000
+		n = 8000
 	}
 	var ts []reflect.Type
 	for _, v := range []interface{}{Inner{}, (*Inner)(nil), (***Inner)(nil), []*Inner{}, WithPtr{}, Emb{}, HasShape{}, []Shape{}, TrNum(0), []TrNum{},
